@@ -117,6 +117,17 @@ class Check(PropertyCheck):
                 tr.take(j)
                 n_acc += 1
                 lines.append(f"disp {j} {p} {m}")
+            if late and not exact_only and rng.random() < 0.6:
+                # the dispatcher (with the observers the scorer created in mid-episode) is reset and used again
+                lines.append("reset")
+                tr.reset()
+                while not tr.done():
+                    if rng.random() < 0.7:
+                        lines.append("rule mwkr")
+                        lines.append("rule omwkr")
+                    j, p, m = gen.gen_valid_request(rng, tr)
+                    tr.take(j)
+                    lines.append(f"disp {j} {p} {m}")
         meta = {"family": family, "filter": "none" if f is None else "+".join(f) or "empty-composite", "kind": kind,
                 "flexible": gen.is_flexible(jobs), "zero_dur": gen.has_zero(jobs), "ops": gen.num_ops(jobs),
                 "accepted": n_acc, "filter_style": rng.choice(["callable", "enum", "str"])}
